@@ -271,6 +271,21 @@ def oracle_survey(ctx, res, inp):
         if not truth.get(n) or site_vr < mdl:
             V("C05:record:detection-record-for-invisible-emission",
               "sensor wrote a detection record for an emission it cannot see / below the MDL", {"emission": n})
+    # -- hypotheses of C05_zero_coverage_is_baseline / C05_unreachable_mdl_is_baseline evaluated on the
+    #    real state; their conclusion (Quiet) checked on the implementation
+    in_scope = [n for (n, act) in res.before if act and scene.em_place[n][0] == si]
+    zero_cov = all(res.state_before[n][2] != 1 and not (rec.spatial.get(n, (0, 0))[1] and rec.spatial[n][0] == 1)
+                   for n in in_scope)
+    total = sum((Fraction(float(scene.em_obj[n].get_rate())) for (n, _) in res.before if scene.em_place[n][0] == si),
+                Fraction(0))
+    unreachable = mdl > total
+    quiet = sm == 0 and not rec.tags and not rec.sensor_records and not rec.tagged
+    facts["hyp_zero_cov"] = bool(zero_cov and in_scope)
+    facts["hyp_unreachable"] = bool(unreachable and in_scope)
+    if (zero_cov or unreachable) and not quiet:
+        V("C05:baseline:acted-under-zero-coverage-or-unreachable-mdl",
+          "all spatial rolls 0 / MDL above the site's total rate, yet the survey measured, tagged or recorded",
+          {"zero_coverage": zero_cov, "unreachable_mdl": unreachable, "measured": float(sm), "tags": rec.tags})
     # -- zero coverage method: nothing at all may happen
     sp_prob = scene.world.methods[name]["coverage"]["spatial"]
     if sp_prob == 0 and (sm != 0 or rec.tags or rec.sensor_records or rec.tagged or returned):
@@ -285,8 +300,8 @@ def oracle_survey(ctx, res, inp):
 def component_stage(ctx):
     from harness.adapters import sensor as S
 
-    n_worlds = ctx.pick(6, 24)
-    n_cases = ctx.pick(450, 2000)
+    n_worlds = ctx.pick(8, 24)
+    n_cases = ctx.pick(550, 2000)
     drv = core.LeanDriver("drv_sensor")
     sample_left = 3
     for w in range(n_worlds):
@@ -333,7 +348,7 @@ def component_stage(ctx):
                 ctx.count("predictor:" + qtype)
                 ctx.count("scale-x-predictor:%s:%s" % (res.code, qtype))
                 for kf in ("hidden_spatial", "hidden_off", "hidden_temporal", "hidden_inactive", "at_mdl",
-                           "detected_units", "undetected_nonzero_units"):
+                           "detected_units", "undetected_nonzero_units", "hyp_zero_cov", "hyp_unreachable"):
                     if facts[kf]:
                         ctx.count("surveys-with:" + kf)
                 if res.rec.tags:
